@@ -1,3 +1,431 @@
 package main
 
-func checkCmd(args []string) int { return 2 }
+import (
+	"encoding/json"
+	"flag"
+	"fmt"
+	"os"
+	"path/filepath"
+	"runtime"
+	"sort"
+	"strconv"
+	"strings"
+	"sync"
+	"time"
+
+	"gsx/eng"
+)
+
+const verifDir = "/verif"
+
+type PropSpec struct {
+	ID        string
+	Technique string
+	Bounds    map[string]interface{}
+	Stubs     []string
+	Outside   []string
+	Quick     func() []eng.Instance
+	Thorough  func() []eng.Instance
+	Race      bool
+}
+
+var registry = map[string]*PropSpec{}
+
+func register(p *PropSpec) { registry[p.ID] = p }
+
+type KnownFindings struct {
+	Open  []KnownEntry `json:"open"`
+	Fixed []string     `json:"fixed"`
+}
+
+type KnownEntry struct {
+	Property string `json:"property"`
+	Instance string `json:"instance"` // instance name prefix
+	Message  string `json:"message"`  // obligation message
+	What     string `json:"what"`
+}
+
+func loadKnown() KnownFindings {
+	var k KnownFindings
+	b, err := os.ReadFile(filepath.Join(verifDir, "known_findings.json"))
+	if err == nil {
+		json.Unmarshal(b, &k)
+	}
+	return k
+}
+
+type instOutcome struct {
+	res       *eng.InstResult
+	err       error
+	reachJob  *eng.ReplayJob
+	violJobs  []*eng.ReplayJob
+	violObl   []eng.Oblig
+	wall      time.Duration
+}
+
+func checkCmd(args []string) int {
+	fs := flag.NewFlagSet("check", flag.ExitOnError)
+	tier := fs.String("tier", "quick", "quick|thorough")
+	solver := fs.String("solver", "z3-new", "solver")
+	only := fs.String("only", "", "substring filter on instance names")
+	workers := fs.Int("j", runtime.NumCPU(), "parallel workers")
+	noReplay := fs.Bool("no-replay", false, "skip native replays (debugging only; result is never a pass)")
+	timeoutMs := fs.Int("timeout-ms", 300000, "per-query solver timeout")
+	verbose := fs.Bool("v", false, "verbose")
+	fs.Parse(args[1:])
+	id := args[0]
+	spec := registry[id]
+	if spec == nil {
+		fmt.Printf("no check registered for %s\n", id)
+		return 2
+	}
+	if t := os.Getenv("VERIF_TIER"); t != "" && *tier == "" {
+		*tier = t
+	}
+	seed := 0
+	if s := os.Getenv("VERIF_SEED"); s != "" {
+		seed, _ = strconv.Atoi(s)
+	}
+	t0 := time.Now()
+	var insts []eng.Instance
+	if *tier == "thorough" && spec.Thorough != nil {
+		insts = spec.Thorough()
+	} else {
+		insts = spec.Quick()
+	}
+	if *only != "" {
+		var f []eng.Instance
+		for _, in := range insts {
+			if strings.Contains(in.Name, *only) {
+				f = append(f, in)
+			}
+		}
+		insts = f
+	}
+	// seed only permutes the order in which instances are scheduled
+	if seed != 0 {
+		r := uint64(seed)*6364136223846793005 + 1442695040888963407
+		for i := len(insts) - 1; i > 0; i-- {
+			r = r*6364136223846793005 + 1442695040888963407
+			j := int((r >> 33) % uint64(i+1))
+			insts[i], insts[j] = insts[j], insts[i]
+		}
+	}
+	ov, _, err := eng.HarnessOverlay(filepath.Join(verifDir, "harness"))
+	if err != nil {
+		fmt.Println("overlay:", err)
+		return 2
+	}
+	for k := range ov {
+		if strings.HasPrefix(filepath.Base(k), "zz_vx_native") {
+			delete(ov, k)
+		}
+	}
+	L, err := eng.Load(ov)
+	if err != nil {
+		fmt.Println("load error (does /repo build?):", err)
+		return 2
+	}
+	outs := make([]*instOutcome, len(insts))
+	var wg sync.WaitGroup
+	sem := make(chan struct{}, *workers)
+	for i := range insts {
+		wg.Add(1)
+		sem <- struct{}{}
+		go func(i int) {
+			defer wg.Done()
+			defer func() { <-sem }()
+			ti := time.Now()
+			o := &instOutcome{}
+			outs[i] = o
+			defer func() {
+				if e := recover(); e != nil {
+					o.err = fmt.Errorf("engine panic: %v", e)
+				}
+				o.wall = time.Since(ti)
+			}()
+			x, err := L.Execute(insts[i])
+			if err != nil {
+				o.err = err
+				return
+			}
+			r := eng.Discharge(x, insts[i], eng.SolveOpts{Solver: *solver, TimeoutMs: *timeoutMs})
+			o.res = r
+			if r.ReachModel != nil {
+				o.reachJob = x.BuildReplay(insts[i], r.ReachModel, fmt.Sprintf("%d/reach", i))
+				o.reachJob.Expect = "reach"
+			}
+			for vi, v := range r.Violations {
+				j := x.BuildReplay(insts[i], v.Model, fmt.Sprintf("%d/viol%d", i, vi))
+				j.Expect = v.Oblig.Msg
+				j.ExpKind = v.Oblig.Kind
+				o.violJobs = append(o.violJobs, j)
+				o.violObl = append(o.violObl, v.Oblig)
+			}
+			if *verbose {
+				fmt.Printf("  [%s] %s  (%v, solver %v, %d queries)\n", r.Status, insts[i].Name, o.wall.Round(time.Millisecond), r.SolverTime.Round(time.Millisecond), r.Queries)
+			}
+		}(i)
+	}
+	wg.Wait()
+
+	// native replays in one batch
+	var jobs []*eng.ReplayJob
+	for _, o := range outs {
+		if o.reachJob != nil {
+			jobs = append(jobs, o.reachJob)
+		}
+		jobs = append(jobs, o.violJobs...)
+	}
+	var nouts map[string]*eng.ReplayOut
+	nativeLog := ""
+	var nerr error
+	if !*noReplay {
+		nouts, nativeLog, nerr = eng.RunNative(L, filepath.Join(verifDir, "harness"), jobs, spec.Race)
+	}
+	if nerr != nil {
+		fmt.Println("native replay failed:", nerr)
+		fmt.Println(nativeLog)
+	}
+
+	known := loadKnown()
+	exit := 0
+	bad := func(code int) {
+		if code > exit {
+			// 1 (violation) dominates 2 only if nothing is broken; broken run is 2
+			exit = code
+		}
+	}
+	var (
+		violations, knownHits, inconclusive int
+		queries, unsat, sat, unknown       int
+		solverS                            float64
+		validated, reachSat, reachTotal    int
+		nontrivial                         int
+		funcs                              = map[string]string{}
+		assumes                            = map[string]bool{}
+		samples                            []interface{}
+		terms, instrs                      int
+		oblig                              int
+		notes                              []string
+	)
+	replayDir := filepath.Join(verifDir, "replays", id)
+	for i, o := range outs {
+		name := insts[i].Name
+		if o.err != nil {
+			fmt.Printf("INCONCLUSIVE %s: engine error: %v\n", name, o.err)
+			inconclusive++
+			bad(2)
+			continue
+		}
+		r := o.res
+		queries += r.Queries
+		unsat += r.Unsat
+		sat += r.Sat
+		unknown += r.Unknown
+		solverS += r.SolverTime.Seconds()
+		reachSat += r.ReachSat
+		reachTotal += r.ReachTotal
+		terms += r.Terms
+		instrs += r.NInstr
+		oblig += r.NOblig
+		for k, v := range r.Funcs {
+			funcs[k] = v
+		}
+		for _, a := range r.AssumeTxt {
+			assumes[a] = true
+		}
+		if r.ReachSat > 0 && r.FreeVars > 0 {
+			nontrivial++
+		}
+		// encoder validation on the reach witness
+		if o.reachJob != nil && nouts != nil {
+			no := nouts[o.reachJob.ID]
+			switch {
+			case no == nil:
+				fmt.Printf("INCONCLUSIVE %s: reach witness was not replayed natively\n", name)
+				inconclusive++
+				bad(2)
+			case no.AssumeViolated:
+				fmt.Printf("INCONCLUSIVE %s: native replay of the reach witness violates a harness assumption (encoder/stub mismatch)\n", name)
+				inconclusive++
+				bad(2)
+			default:
+				if ok, detail := eng.CompareObserved(o.reachJob, no); !ok {
+					fmt.Printf("INCONCLUSIVE %s: formula and native build disagree: %s\n", name, detail)
+					inconclusive++
+					bad(2)
+				} else {
+					validated++
+					if len(samples) < 4 {
+						samples = append(samples, map[string]interface{}{"instance": name, "witness": r.ReachLabel, "inputs": o.reachJob.Inputs, "sched": o.reachJob.Sched, "observed_natively": no.Observed})
+					}
+				}
+			}
+		}
+		switch r.Status {
+		case "pass":
+		case "violation":
+			for vi, ob := range o.violObl {
+				job := o.violJobs[vi]
+				confirmed := false
+				why := "not replayed"
+				if nouts != nil {
+					if no := nouts[job.ID]; no != nil {
+						confirmed, why = confirms(job, no)
+					}
+				}
+				if !confirmed {
+					fmt.Printf("INCONCLUSIVE %s: solver counterexample for %q did not reproduce natively (%s)\n", name, ob.Msg, why)
+					inconclusive++
+					bad(2)
+					continue
+				}
+				if ke := matchKnown(known, id, name, ob.Msg); ke != nil {
+					fmt.Printf("KNOWN-FINDING: property=%s %s [%s: %s]\n", id, ke.What, name, ob.Msg)
+					knownHits++
+					continue
+				}
+				os.MkdirAll(replayDir, 0o755)
+				p := filepath.Join(replayDir, sanitize(name)+fmt.Sprintf("_%d.json", vi))
+				jb, _ := json.MarshalIndent(job, "", " ")
+				os.WriteFile(p, jb, 0o644)
+				fmt.Printf("VIOLATION property=%s replay=%s\n", id, p)
+				fmt.Printf("  instance %s: %s: %s (%s)\n  native: %s\n", name, ob.Kind, ob.Msg, ob.Pos, why)
+				violations++
+				if exit != 2 {
+					exit = 1
+				}
+			}
+		default:
+			fmt.Printf("INCONCLUSIVE %s: %s: %s\n", name, r.Status, r.Err)
+			inconclusive++
+			bad(2)
+		}
+	}
+	if *noReplay {
+		notes = append(notes, "native replay skipped: this run is not a pass")
+		bad(2)
+	}
+	if nerr != nil {
+		bad(2)
+	}
+	if exit == 2 && violations > 0 {
+		// a broken run never reports pass; violations already printed
+	}
+	if len(samples) == 0 {
+		samples = append(samples, map[string]interface{}{"note": "no reach witness replayed"})
+	}
+	// evidence
+	fnames := make([]string, 0, len(funcs))
+	for k, v := range funcs {
+		if strings.Contains(k, "fufuok/cache") && !strings.Contains(k, ".Vx") && !strings.Contains(k, "vx") {
+			fnames = append(fnames, k+" @ "+strings.TrimPrefix(v, "/repo/"))
+		}
+	}
+	sort.Strings(fnames)
+	var asl []string
+	for a := range assumes {
+		asl = append(asl, a)
+	}
+	sort.Strings(asl)
+	asl = append(asl, spec.Stubs...)
+	ev := map[string]interface{}{
+		"property_id": id,
+		"tier":        *tier,
+		"seed":        seed,
+		"level":       "model_checking",
+		"wall_s":      time.Since(t0).Seconds(),
+		"violations":  violations,
+		"assumptions": asl,
+		"coverage": map[string]interface{}{
+			"technique":                     spec.Technique,
+			"evaluations":                   queries,
+			"distinct_nontrivial":           nontrivial,
+			"rule":                          "one evaluation = one SMT query discharged; an instance is non-trivial when its reachability witness is satisfiable and its formula has free input variables",
+			"states":                        max1(terms),
+			"transitions":                   max1(instrs),
+			"traces_validated_against_impl": validated,
+			"samples":                       samples,
+			"functions_encoded":             fnames,
+			"bounds":                        spec.Bounds,
+			"outside_the_claim":             spec.Outside,
+			"instances":                     len(insts),
+			"obligations":                   oblig,
+			"queries":                       map[string]int{"discharged": queries, "unsat": unsat, "sat": sat, "unknown": unknown},
+			"solver":                        *solver,
+			"solver_s":                      solverS,
+			"reach_witnesses":               map[string]int{"total": reachTotal, "sat": reachSat, "replayed_and_agreed": validated},
+			"known_findings_hit":            knownHits,
+			"inconclusive":                  inconclusive,
+			"states_note":                   "states = SMT term-DAG nodes generated from go/ssa; transitions = SSA instruction instances executed symbolically",
+			"notes":                         notes,
+			"exit":                          exit,
+		},
+	}
+	os.MkdirAll(filepath.Join(verifDir, "evidence"), 0o755)
+	eb, _ := json.MarshalIndent(ev, "", " ")
+	os.WriteFile(filepath.Join(verifDir, "evidence", id+".json"), eb, 0o644)
+	fmt.Printf("%s %s: %d instances, %d queries (unsat %d, sat %d, unknown %d), solver %.1fs, wall %.1fs, validated %d, violations %d, known %d, inconclusive %d -> exit %d\n",
+		id, *tier, len(insts), queries, unsat, sat, unknown, solverS, time.Since(t0).Seconds(), validated, violations, knownHits, inconclusive, exit)
+	if *verbose && nativeLog != "" {
+		fmt.Println(nativeLog)
+	}
+	return exit
+}
+
+func max1(n int) int {
+	if n < 1 {
+		return 1
+	}
+	return n
+}
+
+func sanitize(s string) string {
+	r := strings.NewReplacer("/", "_", " ", "_", "=", "-", "(", "", ")", "", ",", "_", "|", "_")
+	return r.Replace(s)
+}
+
+// confirms decides whether the native run reproduces the solver's counterexample.
+func confirms(job *eng.ReplayJob, no *eng.ReplayOut) (bool, string) {
+	if no.AssumeViolated {
+		return false, "native run violates a harness assumption"
+	}
+	switch job.ExpKind {
+	case "assert":
+		for _, f := range no.Failures {
+			if f == job.Expect {
+				return true, "native assertion failed: " + f
+			}
+		}
+		if no.Panic != "" {
+			return false, "native run panicked instead: " + no.Panic
+		}
+		return false, fmt.Sprintf("native failures: %v", no.Failures)
+	case "deadlock":
+		if no.Deadlock {
+			return true, "native run deadlocked under the model's schedule"
+		}
+		return false, "native run did not deadlock"
+	case "race":
+		if no.Race {
+			return true, "race detector reported"
+		}
+		return false, "race detector silent"
+	default: // panic, nil, bounds, typeassert, unlock
+		if no.Panic != "" {
+			return true, "native panic: " + no.Panic
+		}
+		return false, "native run did not panic"
+	}
+}
+
+func matchKnown(k KnownFindings, prop, inst, msg string) *KnownEntry {
+	for i := range k.Open {
+		e := &k.Open[i]
+		if e.Property == prop && strings.HasPrefix(inst, e.Instance) && e.Message == msg {
+			return e
+		}
+	}
+	return nil
+}
